@@ -377,9 +377,10 @@ PENDING = []
 LAZYREF_KEY = 'lazy-reference:one-to-many-collection-loads-empty'
 LAZYREF_WHAT = ('a one-to-many collection whose reverse reference attribute is declared lazy=True loads as EMPTY (and is_empty() is True, count() 0): the batch-load / is_empty SELECT '
                 'leaves the lazy reference column out, so _db_set_ never links the fetched rows to the collection, which is then marked fully loaded')
-COUNT_KEY = 'm2m-count-after-flush:added-removed-not-reset-on-second-side'
-COUNT_WHAT = ('SetInstance.count() after a FLUSHED change of a many-to-many collection is off by the change (e.g. -1 after the only item was removed): _calc_modified_m2m resets '
-              'setdata.added / removed only for the side it processes first and skips the reverse side (`if reverse in modified_m2m: continue`), so count() subtracts / adds them again')
+COUNT_KEY = 'm2m-flush:added-removed-not-reset-on-second-side'
+COUNT_WHAT = ('after a FLUSH of a changed many-to-many collection the second side keeps its setdata.added / removed (_calc_modified_m2m resets them only for the side it processes '
+              'first: `if reverse in modified_m2m: continue`): SetInstance.count() then subtracts / adds them AGAIN (e.g. -1 after the only item was removed, while a prefetched / fully '
+              'loaded collection says 0), and a later batch load of that side can raise UnrepeatableReadError')
 
 class Tie(object):
     """snapshot / driver requests / coherence check for the read-only tail of one run"""
@@ -592,8 +593,8 @@ def report(ctx, schema, population, hist, base, d):
     last = h[i] if 0 <= i < len(h) else ['?']
     if st0 == 'lazyref' and last[0] in ('coll', 'count', 'empty', 'len', 'contains', 'itercoll', 'itercount', 'collload') and 'm2o' in kinds + ['m2o' if any(r['kind'] == 'm2o' for r in schema['rels']) else '']:
         key, what = LAZYREF_KEY, LAZYREF_WHAT
-    elif last[0] in ('count', 'itercount') and any(o[0] in ('delete', 'remove', 'add', 'create', 'setref') for o in h[:i]) and any(r['kind'] in ('m2m', 'symm') for r in schema['rels']):
-        key, what = COUNT_KEY, COUNT_WHAT
+    elif DEFECT['count'] and any(o[0] in ('delete', 'remove', 'add', 'create') for o in h[:i + 1]) and any(r['kind'] in ('m2m', 'symm') for r in schema['rels']):
+        key, what = COUNT_KEY, COUNT_WHAT      # every step of the minimal history is needed: a many-to-many change, a flush, a read of the other side
     ctx.violation(what,
                   {'schema': schema, 'population': pop, 'history': h, 'strategy': st0},
                   observed={st0: lg[st0][i] if 0 <= i < len(lg[st0]) else None}, expected={'default': lg['default'][i] if 0 <= i < len(lg['default']) else None}, key=key)
@@ -644,7 +645,7 @@ def run(ctx):
     work = ponyutil.workdir('c23')
     base = os.path.join(work, 'base.sqlite')
     try:
-        n = ctx.scale(45, 700)
+        n = ctx.scale(220, 3000)
         found = 0
         for it in range(n):
             for attempt in range(20):
